@@ -13,7 +13,7 @@ from typing import Any
 
 import z3
 
-from pyvc.contract import ADTS, INT, MSG, OBJ, ROWS, ROWS_UPTO, contract, shape
+from pyvc.contract import ADTS, INT, MSG, OBJ, ROWS, ROWS_UPTO, contract, inline, shape
 from pyvc.spec import And, Implies, Ite, Not, Or, which_is, which_unset, msg_written
 
 from .encode import (_generic_encode_spo, _te_fields, enc_keys, graph_group_untouched, iri_ids_denote, lru_step,
@@ -114,7 +114,7 @@ class RGraphModel:
     kind = "rgraph"
 
     def make(self, eng: Any, st: Any, sort: Sort, name: str):
-        st, ident, inv = eng.make(st, ADTS("gterm"), name + ".identifier")
+        st, ident, inv = eng.make(st, RTERM, name + ".identifier")
         st, r = eng.alloc(st, "rgraph", "Graph", dataset=bool(sort.arg), identifier=ident)
         return st, r, inv
 
@@ -140,6 +140,8 @@ class RGraphModel:
             st, it, inv = eng.make(st, ABSITER(TUP(STR, IRI_TERM)), "namespaces")
         elif name == "graphs" and not args and st.obj(r).get("dataset"):
             st, it, inv = eng.make(st, ABSITER(Sort("rgraph", False)), "graphs")
+        elif name == "quads" and not args and st.obj(r).get("dataset"):
+            st, it, inv = eng.make(st, ABSITER(TUP(RTERM, RTERM, RTERM, RTERM)), "quads")
         elif name == "__iter__":
             st, it, inv = eng.make(st, ABSITER(RTRIPLE), "triples")
         else:
@@ -201,3 +203,150 @@ class _r_triples_frames:
         out = _frames_post(e)
         out.pop("at-most-one-frame-per-graph-or-dataset", None)     # a Dataset holds any number of graphs
         return out
+
+
+# ------------------------------------------------------------------------ rdflib quads_stream_frames (QUADS physical type)
+from pyvc.contract import NTUP  # noqa: E402
+RQUAD = TUP(RTERM, RTERM, RTERM, RTERM)
+
+
+def _rq_variants() -> list:
+    out = []
+    for sfx in ("@r", "@rmanual", "@rgraphs"):
+        for data in (Sort("rgraph", True), ABSITER(RQUAD)):
+            out.append({"stream": OBJ(f"{SS}:QuadStream{sfx}"), "data": data})
+    return out
+
+
+@contract(f"{RSER}:quads_stream_frames", serves=["C06", "C11", "C14", "C02"])
+class _r_quads_frames:
+    """the rdflib twin of the generic quads_stream_frames (a Dataset's quads, or a generator of quads), same clauses"""
+    params = {"stream": OBJ(f"{SS}:QuadStream@r"), "data": Sort("rgraph", True)}
+    variants = _rq_variants()
+    yields = MSG("RdfStreamFrame")
+    shards = 6
+    modifies = STMT_MOD
+    loops = {0: LoopSpec(invariant=_stmt_loop, after_each=_after_stmt, modifies=STMT_MOD[:5], silent=_silent_loop)}
+
+    def requires(e): return _frames_pre(e)
+    def raises(e): return MAY_REJECT
+    def on_raise(e): return {"tables-still-well-formed": wf_te(e.stream.encoder)}
+    def ensures(e): return _frames_post(e)
+
+
+@contract(f"{RSER}:graphs_stream_frames", serves=["C06", "C11", "C14", "C02", "C03"])
+class _r_graphs_frames:
+    """GRAPHS physical type over a Dataset: every graph goes through GraphStream.graph (bracketed, frames handed on at
+    once), then the final flush.  (The branch that first collects a generator of quads into a Dataset is not covered: it
+    needs a model of Dataset.get_context.)"""
+    params = {"stream": OBJ(f"{SS}:GraphStream@r"), "data": Sort("rgraph", True)}
+    variants = [{"stream": OBJ(f"{SS}:GraphStream{sfx}"), "data": Sort("rgraph", True)} for sfx in ("@r", "@rmanual", "@rgraphs")]
+    yields = MSG("RdfStreamFrame")
+    shards = 3
+    modifies = STMT_MOD
+    loops = {0: LoopSpec(invariant=_stmt_loop, after_each=_after_stmt, modifies=STMT_MOD[:5], silent=_silent_loop)}
+
+    def requires(e): return _frames_pre(e)
+    def raises(e): return MAY_REJECT
+    def on_raise(e): return {"tables-still-well-formed": wf_te(e.stream.encoder)}
+    def ensures(e): return _frames_post(e)
+
+
+# ----------------------------------------------------------------------------------- Stream.for_rdflib / guess_stream
+from .serialize_generic import tables_match_header  # noqa: E402
+from .streams import SOPTS  # noqa: E402
+from .options import known_logical  # noqa: E402
+from pyvc.spec import is_none  # noqa: E402
+
+
+def _preset_ok(lp: Any) -> Any:
+    return And(lp.max_names >= 1, lp.max_names < 2 ** 32, lp.max_prefixes >= 0, lp.max_prefixes < 2 ** 32,
+               lp.max_datatypes >= 0, lp.max_datatypes < 2 ** 32)
+
+
+@contract(f"{SS}:Stream.for_rdflib", serves=["C03", "C13", "C15", "C02", "C12"])
+class _for_rdflib:
+    """the stream the rdflib entry points build: a new rdflib term encoder whose tables have exactly the sizes the options
+    row will announce"""
+    params = {"cls": Sort("classref", f"{SS}:TripleStream"), "options": OBJ(SOPTS)}
+    variants = [{"cls": Sort("classref", f"{SS}:{c}")} for c in ("TripleStream", "QuadStream", "GraphStream")]
+    result = Sort("anyobj")
+    inline_at_calls = True
+
+    def requires(e):
+        o = e.options
+        return And(known_logical(o.logical_type), is_none(o.flow), _preset_ok(o.lookup_preset))
+
+    def raises(e): return {("?", "JellyAssertionError", "TypeError"): True}
+
+    def ensures(e):
+        S = e.result
+        return {"header-sizes-are-the-encoder's-table-sizes": tables_match_header(S),
+                "rdflib-term-encoder": S.encoder.cls.name == "RDFLibTermEncoder",
+                "tables-well-formed": wf_te(S.encoder),
+                "not-yet-enrolled": Not(S.enrolled)}
+
+
+@contract(f"{RSER}:guess_stream", serves=["C03", "C13", "C15", "C02", "C06"])
+class _r_guess_stream:
+    """the rdflib entry points' stream: QuadStream for a Dataset unless a graphs logical type was asked for, TripleStream
+    otherwise; its encoder is sized as its header will announce"""
+    params = {"options": OBJ(SOPTS), "sink": Sort("rgraph", False)}
+    variants = [{"sink": Sort("rgraph", False)}, {"sink": Sort("rgraph", True)}]
+    result = Sort("anyobj")
+    inline_at_calls = True
+
+    def requires(e):
+        o = e.options
+        return And(known_logical(o.logical_type), is_none(o.flow), _preset_ok(o.lookup_preset))
+
+    def raises(e): return {("?", "JellyAssertionError"): True}
+
+    def ensures(e):
+        S, o = e.result, e.options
+        want_quads = And(o.logical_type % 10 != 3, bool(e.sink.dataset))
+        return {"header-sizes-are-the-encoder's-table-sizes": tables_match_header(S),
+                "quad-stream-for-datasets-unless-graphs": want_quads == (S.cls.name == "QuadStream"),
+                "triple-stream-otherwise": Or(want_quads, S.cls.name == "TripleStream"),
+                "rdflib-term-encoder": S.encoder.cls.name == "RDFLibTermEncoder"}
+
+
+# ------------------------------------------------------------------------------ RDFLibJellySerializer.serialize (entry)
+shape(f"{RSER}:RDFLibJellySerializer", fields=dict(store=Sort("rgraph", False)))
+inline(f"{RSER}:guess_options")
+
+from .flows import flow_len  # noqa: E402
+SIO = "pyjelly.serialize.ioutils"
+inline(f"{SIO}:write_delimited")
+inline(f"{SIO}:write_single")
+
+
+def _each_frame_written(e):
+    """C06: the frame just obtained is written, once, with the framing the stream's options ask for, before the next one
+    is asked for"""
+    w_new, w_old = e.out._obj().get("writes"), e.old.out._obj().get("writes")
+    ok = len(w_new) == len(w_old) + 1 and w_new[:len(w_old)] == w_old
+    out = {"exactly-one-write-per-frame": ok}
+    if ok:
+        how, msg = w_new[-1]
+        delim = e.stream.options.params.delimited
+        out["the-frame-itself-is-written"] = msg == e.stream_frame._ref
+        out["framing-as-configured"] = Ite(delim, how == "delimited", how == "single")
+    return out
+
+
+@contract(f"{RSER}:RDFLibJellySerializer.serialize", serves=["C06", "C02", "C08"])
+class _r_serialize:
+    """the rdflib plugin's entry point: every frame that stream_frames produces for the store is written to `out`, in
+    order, length-prefixed iff the options say delimited (stream given by the caller; the guessing branch is guess_stream's
+    contract)"""
+    params = {"self": OBJ(f"{RSER}:RDFLibJellySerializer"), "out": Sort("bytesink"), "stream": OBJ(f"{SS}:TripleStream@r"),
+              "options": OBJ(SOPTS), "unused": Sort("const", None)}
+    variants = [{"stream": OBJ(f"{SS}:TripleStream{sfx}")} for sfx in ("@r", "@rmanual", "@rgraphs")]
+    modifies = ["out"] + STMT_MOD
+    loops = {0: LoopSpec(invariant=lambda e: {"stream-kept": True}, after_each=_each_frame_written, modifies=["out"])}
+
+    def requires(e): return _frames_pre(e)
+    def raises(e): return MAY_REJECT
+    def on_raise(e): return {"anything": True}
+    def ensures(e): return {"nothing-left-buffered": flow_len(e.stream.flow) == 0}
